@@ -417,6 +417,10 @@ def oracle_seq(ops, script, out):
                 return "%s: close() raised %s" % (at, fin)
             if "c" in before and fwd:
                 return "%s: close() after a close forwarded %s" % (at, fwd)
+        # 2c. a typed read (receive_text / receive_bytes / iter_*) is legal only between accept and close: before, or
+        #     after close(), it raises WITHOUT touching the connection (a frame taken by such a call would be lost)
+        if (c in (2, 3) or 10 <= c < 30) and ("a" not in before or "c" in before or closed_called) and recvs:
+            return "%s: a typed read outside the accepted state issued %d server receive() call(s) (%s)" % (at, recvs, fin)
         # 3. no receive() once a disconnect was delivered
         if delivered and recvs:
             return "%s: %d server receive() call(s) after a disconnect was delivered" % (at, recvs)
